@@ -183,8 +183,8 @@ def c_ios(v):
 def manifest(o):
     k = o['kind']
     meta = {'name': o['name'], 'namespace': o['ns']}
-    if o['ns'] == 'default' and (sum(map(ord, o['name'])) + len(k)) % 2 == 0:
-        meta = {'name': o['name']}        # a namespaced object written without namespace lives in default (half of them, fixed per object)
+    if o['ns'] == 'default' and (k == 'Route' or (sum(map(ord, o['name'])) + len(k)) % 2 == 0):
+        meta = {'name': o['name']}        # a namespaced object written without namespace lives in default (every Route, half of the others; fixed per object)
     if k == 'Service':
         ports = []
         for p in o['ports']:
